@@ -685,6 +685,7 @@ func TestC13(t *testing.T) {
 	c.Bound("delay_bound", map[bool]string{false: "1", true: "1 for all scenarios, 2 for the eight base scenarios"}[thorough])
 	c.Bound("threads", map[bool]string{false: "2", true: "2 (one scenario with 3)"}[thorough])
 	c13MixedPeers(t, c)
+	c13HandlerEndOfStream(t, c)
 	cases := c13Scenarios(thorough)
 	for i, k := range cases {
 		if !ev.Mine(i) {
@@ -806,4 +807,69 @@ func mixedPeers(t *testing.T, c *ev.Collector, test string, opts []connect.Handl
 			}
 		}
 	}
+}
+
+// c13HandlerEndOfStream: request streams that end with a flagged envelope (a
+// Connect end-of-stream message, a gRPC-Web trailer frame: clients normally
+// do not send them, a peer can) through one bidi handler, one call after the
+// other.  The handler tags the error its Receive returned; no call may find
+// another call's tag on the error it is handed.
+func c13HandlerEndOfStream(t *testing.T, c *ev.Collector) {
+	if s, _ := ev.Shard(); s != 0 {
+		return
+	}
+	type frame struct {
+		name, ct string
+		last     []byte
+	}
+	frames := []frame{
+		{"connect", "application/connect+proto", refwire.Envelope(2, []byte("{}"))},
+		{"grpcweb", "application/grpc-web+proto", refwire.Envelope(0x80, []byte("x: y\r\n"))},
+	}
+	Bubble(t, func() {
+		found := map[string][]string{}
+		h := NewHandler(KBidi, func(ctx context.Context, s HStream) error {
+			id := s.RequestHeader().Get("X-Call")
+			for {
+				_, err := s.Receive()
+				if err != nil {
+					var ce *connect.Error
+					if errors.As(err, &ce) {
+						found[id] = append([]string{}, ce.Meta().Values("X-Failed-Request")...)
+						ce.Meta().Set("X-Failed-Request", id)
+					}
+					return nil
+				}
+			}
+		})
+		var order []string
+		for round := 0; round < 2; round++ {
+			for _, f := range frames {
+				id := fmt.Sprintf("%s-%d", f.name, round)
+				order = append(order, id)
+				body := append(refwire.Envelope(0, codecMarshal(false, &BV{Value: []byte(id)})), f.last...)
+				req := httptest.NewRequest("POST", "http://mem.test"+Procedure, bytes.NewReader(body))
+				req.ProtoMajor, req.ProtoMinor, req.Proto = 2, 0, "HTTP/2.0"
+				req.Header.Set("Content-Type", f.ct)
+				req.Header.Set("X-Call", id)
+				g := Guarded(func() { h.ServeHTTP(httptest.NewRecorder(), req) })
+				if g.Hung || g.Panicked {
+					c.Violation(c13TestName, "terminates", "hang-or-panic", []string{"handler-end-of-stream"}, id, "%s: hung=%v panic=%v", id, g.Hung, g.Panic)
+					BailIfStuck(c, g)
+					return
+				}
+			}
+		}
+		c.Case("handler-end-of-stream", true)
+		c.AddStates(int64(len(order)))
+		c.AddTransitions(int64(len(order)))
+		for _, id := range order {
+			if tags := found[id]; len(tags) > 0 {
+				c.Violation(c13TestName, "no-cross-talk", "foreign-metadata", []string{"handler-end-of-stream"}, id, "the error that Receive handed to call %s at the end of its request stream already carried metadata set by call(s) %v: one *connect.Error value is shared by the calls", id, tags)
+				c.Outcome("violation")
+				return
+			}
+		}
+		c.Outcome("ok")
+	})
 }
